@@ -424,6 +424,10 @@ struct Value {
     void do_addr_to_spk() {
         // addresses are base58-check encoded, so we decode them first
         do_base58chkdec();
+        if (type != T_DATA || data.empty()) {
+            fprintf(stderr, "not an address\n");
+            return;
+        }
         // they are now prefixed with a 0x00; rip that out
         data.erase(data.begin());
         // wrap in appropriate script fluff
@@ -476,6 +480,10 @@ struct Value {
             return;
         }
         auto bech = result.data;
+        if (bech.empty()) {
+            fprintf(stderr, "bech32(m) string has no data part\n");
+            return;
+        }
         // Bech32(m) decoding
         int version = bech[0]; // The first 5 bit symbol is the witness version (0-16)
         // data = r.second;
